@@ -428,6 +428,31 @@ func execC20(sc *core.Scenario) *core.Result {
 				res.Violate("crash:"+slotClass(sl, firstMod)+":other-id-changed", fmt.Sprintf("process death at %s of Store(%q) changed the entry of %q", sl.desc, short(id), oid))
 			}
 		}
+		// ---- life goes on: the next (uninterrupted) store on top of what the crash left, here of the same
+		// identifier, must, if it reports success, be retrievable exactly, and must leave the others alone
+		if len(slots) <= 300 || si%8 == 0 {
+			again := proto.Clone(newDoc).(*sbom.Document)
+			serr, sabort, _ := env3.store(again, false, "fs")
+			switch {
+			case sabort != "":
+				res.Violate("crash:"+slotClass(sl, firstMod)+":next-store-"+sabort, fmt.Sprintf("process death at %s of Store(%q): the next store of that identifier ended in %s", sl.desc, short(id), sabort))
+			case serr == nil:
+				res.Probes["store after a crash, on its leftovers"]++
+				got, gerr, gabort, _ := env3.retrieve(id, "fs")
+				if gabort != "" || gerr != nil || !proto.Equal(got, newDoc) {
+					res.Violate("crash:"+slotClass(sl, firstMod)+":next-store-not-retrievable", fmt.Sprintf("process death at %s of Store(%q), then an uninterrupted store of that identifier reported success, but Retrieve gives err=%v abort=%q / another document", sl.desc, short(id), gerr, gabort))
+				}
+				for _, oid := range sortedKeys(e.model) {
+					if oid == id {
+						continue
+					}
+					od, oerr, oabort, _ := env3.retrieve(oid, "fs")
+					if oabort != "" || oerr != nil || !proto.Equal(od, e.model[oid].doc) {
+						res.Violate("crash:"+slotClass(sl, firstMod)+":other-id-changed-by-next-store", fmt.Sprintf("process death at %s of Store(%q), then the next store of that identifier: the entry of %q changed", sl.desc, short(id), oid))
+					}
+				}
+			}
+		}
 		switch sl.desc {
 		case "in-write":
 			res.Probes["crash landed inside a write"]++
